@@ -21,8 +21,9 @@ def _num(tok):
         return None
 
 
-def class_key(case):
-    """coarse, deterministic class of a request line: `property|entry|type|features`"""
+def class_key(case, complaint=""):
+    """coarse, deterministic class of a request line: `property|entry|type|features`
+    (`complaint` is the oracle's message for PROP lines)"""
     inp = case.split(" => ")[0].split(" || ")[0]
     toks = inp.split()
     if len(toks) < 2:
@@ -39,6 +40,8 @@ def class_key(case):
         lvl = _num(toks[5])
         if toks[4] in ("CU", "CL") and lvl is not None and lvl <= 0.5:
             feats.append("one-sided,level<=1/2")
+    if pid == "C08" and complaint.startswith("tree-shape"):
+        return "C08|kahan||right-deep-merge"
     if pid == "C18" and op == "literal":
         feats = ["level-outside-(0,1)"]
         ty = ""
